@@ -36,7 +36,7 @@ type c20 struct {
 
 func init() { core.Register(&c20{}) }
 
-var c20Families = []string{"path-strings", "element-sequences", "set-typed-values", "set-json-documents", "set-path-mutations", "rpc-requests", "sync-notifications", "netconf-xml", "stateful-histories", "gnmi-wire-notifications"}
+var c20Families = []string{"path-strings", "element-sequences", "set-typed-values", "set-json-documents", "set-path-mutations", "rpc-requests", "sync-notifications", "netconf-xml", "stateful-histories", "gnmi-wire-notifications", "datastore-management"}
 
 func (c *c20) ID() string    { return "C20" }
 func (c *c20) Level() string { return "exploration" }
@@ -53,7 +53,7 @@ func (c *c20) batch(tier string) int {
 	return 40
 }
 func (c *c20) Rule() string {
-	return "one case = a batch of PRNG inputs for one entry-point family: path strings (ParsePath, CompletePath, ToStrings, StripPathElemPrefix), element sequences (SchemaClientBound.ToPath), TransactionSet through the Server handler with every typed-value kind against every leaf type, with JSON / JSON_IETF documents against every container (grammar-valid and structure-aware mutations: wrong JSON type at a node, missing / duplicated keys, leaf where a container is expected, deep nesting, huge / negative numbers), with mutated paths, flags, names and priorities; GetData / Subscribe / WatchDeviations / Confirm / Cancel / GetIntent requests; gNMI-style sync notifications through the sync loop; hostile gNMI notifications from a gNMI device on loopback through the production gNMI target (stream and Get) and the sync loop; NETCONF XML replies through the production NETCONF target's Get (XML2sdcpb adapter); valid multi-owner transaction histories with leaf-lists of different lengths on a device whose running values drift, with deviation cycles in between. Every request / device message is marshalled and unmarshalled first (only wire-reachable shapes count). The only allowed outcomes are a response or an error: a recovered panic, a dead worker process (panic in a goroutine of the code under test, fatal error, stack overflow) and a call that does not return within 10 s (confirmed by a second run) are violations. distinct = family + inputs; non-trivial = the batch produced at least 3 different outcomes (different error texts / success)"
+	return "one case = a batch of PRNG inputs for one entry-point family: path strings (ParsePath, CompletePath, ToStrings, StripPathElemPrefix), element sequences (SchemaClientBound.ToPath), TransactionSet through the Server handler with every typed-value kind against every leaf type, with JSON / JSON_IETF documents against every container (grammar-valid and structure-aware mutations: wrong JSON type at a node, missing / duplicated keys, leaf where a container is expected, deep nesting, huge / negative numbers), with mutated paths, flags, names and priorities; GetData / Subscribe / WatchDeviations / Confirm / Cancel / GetIntent requests; gNMI-style sync notifications through the sync loop; hostile gNMI notifications from a gNMI device on loopback through the production gNMI target (stream and Get) and the sync loop; NETCONF XML replies through the production NETCONF target's Get (XML2sdcpb adapter); CreateDataStore / ListDataStore / Discard / DeleteDataStore with arbitrary target and sync settings towards live loopback devices; valid multi-owner transaction histories with leaf-lists of different lengths on a device whose running values drift, with deviation cycles in between. Every request / device message is marshalled and unmarshalled first (only wire-reachable shapes count). The only allowed outcomes are a response or an error: a recovered panic, a dead worker process (panic in a goroutine of the code under test, fatal error, stack overflow) and a call that does not return within 10 s (confirmed by a second run) are violations. distinct = family + inputs; non-trivial = the batch produced at least 3 different outcomes (different error texts / success)"
 }
 func (c *c20) Assumptions() []string {
 	return []string{
@@ -999,6 +999,116 @@ func (c *c20) RunCase(w *core.Worker, idx int, seed uint64, res *core.CaseResult
 				st.Cancel()
 				r.outcomes[fmt.Sprint("deviations:", len(st.Sent) > 2)] = true
 			}
+		}
+	case "datastore-management":
+		// CreateDataStore / DeleteDataStore / ListDataStore / GetDataStore / Discard with arbitrary (protobuf-valid) target and
+		// sync settings; the targets point at a gNMI device and a NETCONF device on loopback (so that the datastore really
+		// connects and starts its sync and deviation goroutines: a panic there ends the process) or at a dead port
+		gdev, gerr := fixture.NewGNMIDevice()
+		ndev, nerr := fixture.NewNCDevice()
+		if gerr != nil || nerr != nil {
+			res.Inconclusive("C20/datastore-management/no-device", "%v %v", gerr, nerr)
+			return
+		}
+		defer gdev.Close()
+		defer ndev.Close()
+		gdev.SetGetNotifs([]*gnmi.Notification{})
+		srv := server.NewVerif(ctx, &config.Config{DefaultTransactionTimeout: time.Minute}, c.env.Schema, c.env.Cache, map[string]*datastore.Datastore{})
+		pst := fixture.NewFakeStream[*sdcpb.GetDataResponse](ctx)
+		pctx := pst.Context()
+		defer pst.Cancel()
+		sc := fixture.SchemaConfig()
+		for i := 0; i < n/2+1; i++ {
+			name := fmt.Sprintf("dm-%d-%d", idx, i)
+			tgt := &sdcpb.Target{Address: "127.0.0.1"}
+			switch rng.Intn(5) {
+			case 0, 1:
+				tgt.Type, tgt.Port = "gnmi", gdev.Port()
+				tgt.ProtocolOptions = &sdcpb.Target_GnmiOpts{GnmiOpts: &sdcpb.GnmiOptions{Encoding: []string{"proto", "json", "json_ietf", "PROTO", "", "45", "bogus"}[rng.Intn(7)]}}
+			case 2:
+				tgt.Type, tgt.Port = "netconf", ndev.Port()
+				tgt.ProtocolOptions = &sdcpb.Target_NetconfOpts{NetconfOpts: &sdcpb.NetconfOptions{IncludeNs: rng.Bool(), OperationWithNs: rng.Bool(), UseOperationRemove: rng.Bool(), CommitCandidate: sdcpb.CommitCandidate(rng.Intn(3))}}
+				tgt.Credentials = &sdcpb.Credentials{Username: "u", Password: "p"}
+			case 3:
+				tgt.Type, tgt.Port = []string{"gnmi", "netconf", "noop", "", "GNMI"}[rng.Intn(5)], uint32([]int{1, 0, 65535, 70000}[rng.Intn(4)])
+				if rng.Bool() {
+					tgt.ProtocolOptions = &sdcpb.Target_GnmiOpts{GnmiOpts: &sdcpb.GnmiOptions{Encoding: "proto"}}
+				}
+			case 4:
+				tgt.Type, tgt.Port = "gnmi", gdev.Port() // gnmi without its options, or with the options of the other protocol
+				if rng.Bool() {
+					tgt.ProtocolOptions = &sdcpb.Target_NetconfOpts{NetconfOpts: &sdcpb.NetconfOptions{}}
+				}
+			}
+			if rng.Chance(1, 5) {
+				tgt.Tls = &sdcpb.TLS{SkipVerify: rng.Bool(), Ca: []string{"", "/nope/ca.pem"}[rng.Intn(2)]}
+			}
+			req := &sdcpb.CreateDataStoreRequest{Name: name, Schema: &sdcpb.Schema{Name: sc.Name, Vendor: sc.Vendor, Version: sc.Version}, Target: tgt}
+			if rng.Chance(1, 8) {
+				req.Schema = &sdcpb.Schema{Name: "nope"}
+			}
+			if rng.Chance(1, 8) {
+				req.Target = nil
+			}
+			if rng.Chance(3, 4) {
+				sy := &sdcpb.Sync{Validate: rng.Bool(), Buffer: []int64{0, 1, 100, -1, 1 << 40}[rng.Intn(5)], WriteWorkers: []int64{0, 1, 16, -3}[rng.Intn(4)]}
+				if sy.Buffer > 1<<30 {
+					sy.Buffer = 100 // (a channel of 2^40 slots is an out-of-memory test, not a crash test)
+				}
+				ncfg := rng.Intn(3)
+				for j := 0; j < ncfg; j++ {
+					st := &sdcpb.Target{Type: []string{"gnmi", "netconf", "gnmi", "bogus", ""}[rng.Intn(5)]}
+					if rng.Bool() {
+						st.ProtocolOptions = &sdcpb.Target_GnmiOpts{GnmiOpts: &sdcpb.GnmiOptions{Encoding: []string{"proto", "PROTO", "json", "", "bogus"}[rng.Intn(5)]}}
+					}
+					cfgE := &sdcpb.SyncConfig{Name: fmt.Sprintf("s%d", j), Target: st, Path: [][]string{{"/"}, {"/sys"}, {}, {"/if[name"}, {"/nope", "/sys/name"}}[rng.Intn(5)],
+						Mode: sdcpb.SyncMode(rng.Intn(5)), Interval: []uint64{0, 1, uint64(20 * time.Millisecond), uint64(time.Second), 1 << 63, 1<<64 - 1}[rng.Intn(6)]}
+					if rng.Chance(1, 8) {
+						cfgE.Target = nil
+					}
+					sy.Config = append(sy.Config, cfgE)
+				}
+				req.Sync = sy
+			}
+			req = roundTrip(req)
+			desc := fmt.Sprintf("CreateDataStore %v", req)
+			note(desc)
+			var cerr error
+			r.call("Server.CreateDataStore", desc, func() error {
+				_, cerr = srv.CreateDataStore(pctx, req)
+				return cerr
+			})
+			if cerr == nil {
+				// let it connect and start its goroutines
+				time.Sleep(time.Duration(60+rng.Intn(120)) * time.Millisecond)
+				r.outcomes["created"] = true
+			}
+			r.call("Server.ListDataStore", desc, func() error {
+				_, err := srv.ListDataStore(pctx, roundTrip(&sdcpb.ListDataStoreRequest{}))
+				return err
+			})
+			cand := roundTrip(&sdcpb.CreateDataStoreRequest{Name: []string{name, "nope", ""}[rng.Intn(3)], Datastore: &sdcpb.DataStore{Type: sdcpb.Type(rng.Intn(3)), Name: []string{"c1", ""}[rng.Intn(2)], Owner: []string{"o", "", "__x"}[rng.Intn(3)], Priority: []int32{0, 5, -1}[rng.Intn(3)]}})
+			r.call("Server.CreateDataStore(candidate)", fmt.Sprintf("%v", cand), func() error {
+				_, err := srv.CreateDataStore(pctx, cand)
+				return err
+			})
+			r.call("Server.Discard", desc, func() error {
+				_, err := srv.Discard(pctx, roundTrip(&sdcpb.DiscardRequest{Name: []string{name, "nope"}[rng.Intn(2)], Datastore: &sdcpb.DataStore{Type: sdcpb.Type(rng.Intn(3)), Name: "c1", Owner: "o"}}))
+				return err
+			})
+			del := roundTrip(&sdcpb.DeleteDataStoreRequest{Name: name})
+			switch rng.Intn(4) {
+			case 0:
+				del.Datastore = &sdcpb.DataStore{Type: sdcpb.Type_CANDIDATE, Name: "c1", Owner: "o"}
+			case 1:
+				del.Datastore = &sdcpb.DataStore{Type: sdcpb.Type_MAIN}
+			}
+			r.call("Server.DeleteDataStore", fmt.Sprintf("%v", del), func() error {
+				_, err := srv.DeleteDataStore(pctx, del)
+				return err
+			})
+			// whatever was left, remove it for good
+			srv.DeleteDataStore(pctx, &sdcpb.DeleteDataStoreRequest{Name: name})
 		}
 	case "netconf-xml":
 		drv := fixture.NewFakeDrv()
